@@ -143,7 +143,7 @@ def empty_piece(calls):
 
 
 def classify(kind, info):
-    if kind in ("stream.exact", "wire.unparsed", "no-response", "not-forwarded") and info.get("empty_piece_chunked"):
+    if kind in ("stream.exact", "stream.engaged", "stream.input", "stream.stored", "wire.unparsed", "no-response", "not-forwarded") and info.get("empty_piece_chunked"):
         # an addon stream callable returned an empty bytes piece while the outgoing HTTP/1 message is chunked
         return "stream-callable-empty-piece-on-chunked-http1-message"
     if kind == "m3.bound" and info.get("streaming") and info.get("store"):
@@ -352,18 +352,18 @@ def run_case(ctx, opts):
 
         # ===== request direction
         qcalls = addon.calls.get((tag, "req"))
-        aborted = "error" in names and "request" not in names and size_error
+        aborted = "error" in names and "responseheaders" not in names and size_error
         do_abort = qcls == "abort" or (qcls == "abort-or-stream" and aborted)
         if qcls in ("abort", "abort-or-stream", "stream"):
             nontrivial = True
         if do_abort:
             ctx.count("dir.request.abort")
-            check_abort(ctx, d, wit, "request", it, rec, names, down.get(i, []), 413, client_closed_before_teardown, sent_100="expect" in rq["feats"] and b"HTTP/1.1 100 " in down_raw)
+            check_abort(ctx, d, wit, "request", it, rec, names, down.get(i, []), 413, client_closed_before_teardown, sent_100="expect" in rq["feats"] and b"HTTP/1.1 100 " in down_raw, hist=hist)
             alive = False
             continue
         # limit.exact: a request that does not exceed the limit (or whose excess cannot be known) is not refused
         ctx.count("limit.exact")
-        if size_error and "response" not in names and "request" not in names:
+        if size_error and "responseheaders" not in names:
             ctx.violation("limit.exact", wit(tag=tag, direction="request", n=qp["n"], limit=L, error=f.error.msg, cls=qcls))
             alive = False
             continue
@@ -380,7 +380,7 @@ def run_case(ctx, opts):
         do_abort = scls == "abort" or (scls == "abort-or-stream" and r_aborted)
         if do_abort:
             ctx.count("dir.response.abort")
-            check_abort(ctx, d, wit, "response", it, rec, names, down.get(i, []), 502, client_closed_before_teardown, sent_100="expect" in rq["feats"] and b"HTTP/1.1 100 " in down_raw)
+            check_abort(ctx, d, wit, "response", it, rec, names, down.get(i, []), 502, client_closed_before_teardown, sent_100="expect" in rq["feats"] and b"HTTP/1.1 100 " in down_raw, hist=hist)
             alive = False
             continue
         ctx.count("limit.exact")
@@ -401,7 +401,7 @@ def run_case(ctx, opts):
     return sig, nontrivial, sample
 
 
-def check_abort(ctx, d, wit, direction, it, rec, names, down_msgs, status, client_closed_early, sent_100):
+def check_abort(ctx, d, wit, direction, it, rec, names, down_msgs, status, client_closed_early, sent_100, hist):
     f = rec["flow"]
     tag = it["req"]["tag"]
     ctx.count("limit.error")
@@ -423,7 +423,7 @@ def check_abort(ctx, d, wit, direction, it, rec, names, down_msgs, status, clien
         if not d.peers[d.client].got_eof:
             ctx.violation("limit.client", wit(tag=tag, direction=direction, problem="no error page and connection left open after 100 Continue"))
     elif len(own) != 1 or own[0]["status"] != status or len(down_msgs) != 1:
-        ctx.violation("limit.client", wit(tag=tag, direction=direction, problem=f"expected exactly one own {status} page", got=[(m['status'], m['raw_head'][:120]) for m in down_msgs]))
+        ctx.violation("limit.client", wit(tag=tag, direction=direction, problem=f"expected exactly one own {status} page", got=[(m['status'], m['raw_head'][:120]) for m in down_msgs]), classify("no-response", {"empty_piece_chunked": hist.get("response", False)}))
     ctx.count("limit.not_forwarded")
     if direction == "request":
         for conn in d.servers:
@@ -487,7 +487,7 @@ def check_relay(ctx, d, wit, direction, it, rec, cls, calls, observed, wire_stat
                 break
         hstep = steps.get(hookname)
         if first is None or hstep is None or not first < hstep:
-            ctx.violation("stream.engaged", wit(tag=tag, direction=direction, cls=cls, first_wire_step=first, hook_step=hstep))
+            ctx.violation("stream.engaged", wit(tag=tag, direction=direction, cls=cls, first_wire_step=first, hook_step=hstep), classify("stream.engaged", info))
         # S2a: callable inputs
         if plan["action"] not in (None, "true"):
             ctx.count("stream.input")
@@ -500,7 +500,7 @@ def check_relay(ctx, d, wit, direction, it, rec, cls, calls, observed, wire_stat
             elif ins[-1] != b"" or any(a == b"" for a in ins[:-1]):
                 problem = "final empty-bytes call missing or misplaced"
             if problem:
-                ctx.violation("stream.input", wit(tag=tag, direction=direction, problem=problem, input_lens=[len(a) for a in ins][:20], body_len=len(body)))
+                ctx.violation("stream.input", wit(tag=tag, direction=direction, problem=problem, input_lens=[len(a) for a in ins][:20], body_len=len(body)), classify("stream.input", info))
         # S2b: peer sees exactly the transformed bytes
         ctx.count("stream.exact")
         if expected is not None and msg["body"] != expected:
